@@ -16,107 +16,11 @@
 (* reachable final state is one test case, emitted with the expression     *)
 (* text and the printed form of its value.                                 *)
 (***************************************************************************)
-EXTENDS Integers, Sequences, FiniteSets, TLC, Json, BigInt
+EXTENDS Integers, Sequences, FiniteSets, TLC, Json, PyVal
 
 CONSTANTS IntLits,     \* set of strings naming integer operands, see IntOf
           FloatLits,   \* set of <<m, e>>
           UseBools
-
-P2(n) == PowSmall(FromInt(2), n)
-IntOf(s) == CASE s = "m7" -> FromInt(-7) [] s = "m2" -> FromInt(-2) [] s = "m1" -> FromInt(-1)
-              [] s = "0" -> FromInt(0) [] s = "1" -> FromInt(1) [] s = "2" -> FromInt(2) [] s = "7" -> FromInt(7)
-              [] s = "i31m" -> Sub(P2(31), FromInt(1)) [] s = "i31" -> P2(31) [] s = "mi31" -> Neg(P2(31))
-              [] s = "i32" -> P2(32) [] s = "i63m" -> Sub(P2(63), FromInt(1)) [] s = "i63" -> P2(63)
-              [] s = "i64" -> P2(64) [] s = "mi63" -> Neg(P2(63))
-
-VInt(v) == [t |-> "int", v |-> v]
-VBool(b) == [t |-> "bool", b |-> b]
-Skip == [t |-> "skip"]
-Zde == [t |-> "zde"]
-
-\* ---- dyadic floats
-RECURSIVE Pow2(_)
-Pow2(n) == IF n = 0 THEN 1 ELSE 2 * Pow2(n - 1)
-RECURSIVE Pow5(_)
-Pow5(n) == IF n = 0 THEN 1 ELSE 5 * Pow5(n - 1)
-RECURSIVE NormF(_, _)
-NormF(m, e) == IF e > 0 /\ m % 2 = 0 THEN NormF(m \div 2, e - 1) ELSE [t |-> "float", m |-> m, e |-> e]
-FAdd(x, y) == LET e == Max(x.e, y.e) IN NormF(x.m * Pow2(e - x.e) + y.m * Pow2(e - y.e), e)
-FNeg(x) == [x EXCEPT !.m = -x.m]
-FMul(x, y) == NormF(x.m * y.m, x.e + y.e)
-FCmp(x, y) == LET e == Max(x.e, y.e) a == x.m * Pow2(e - x.e) b == y.m * Pow2(e - y.e)
-              IN IF a < b THEN -1 ELSE IF a > b THEN 1 ELSE 0
-SmallInt(v) == v.mag = <<>> \/ (Len(v.mag) = 1 /\ v.mag[1] < 100)
-ToSmall(v) == IF v.mag = <<>> THEN 0 ELSE IF v.neg THEN -v.mag[1] ELSE v.mag[1]
-\* a small integer as a float
-FOfInt(v) == [t |-> "float", m |-> ToSmall(v), e |-> 0]
-\* n / d for small integers, when the quotient is dyadic with e <= 6
-RECURSIVE DivDyadic(_, _, _)
-DivDyadic(n, d, e) == IF n % d = 0 THEN NormF(n \div d, e)
-                      ELSE IF e >= 6 THEN Skip ELSE DivDyadic(2 * n, d, e + 1)
-\* TLA+ \div and % floor for negative numerators only with positive divisors: normalise signs first
-TrueDiv(n, d) == IF d = 0 THEN Zde
-                 ELSE IF n = 0 /\ d < 0 THEN Skip          \* -0.0: signed zero is outside the dyadic model
-                 ELSE LET sn == IF (n < 0) # (d < 0) THEN -1 ELSE 1
-                          an == IF n < 0 THEN -n ELSE n
-                          ad == IF d < 0 THEN -d ELSE d
-                          q == DivDyadic(an, ad, 0)
-                      IN IF q.t = "skip" THEN q ELSE [q EXCEPT !.m = sn * q.m]
-
-AsInt(x) == IF x.t = "bool" THEN FromInt(IF x.b THEN 1 ELSE 0) ELSE x.v     \* Python: bool is an int
-IsIntLike(x) == x.t \in {"int", "bool"}
-AsFloat(x) == IF x.t = "float" THEN x ELSE FOfInt(AsInt(x))
-Truth(x) == CASE x.t = "bool" -> x.b [] x.t = "int" -> x.v.mag # <<>> [] x.t = "float" -> x.m # 0
-
-ArithOps == {"+", "-", "*", "//", "%", "**", "/"}
-CmpOps == {"==", "!=", "<", "<=", ">", ">="}
-BoolOps == {"and", "or"}
-CmpRes(op, c) == CASE op = "==" -> c = 0 [] op = "!=" -> c # 0 [] op = "<" -> c < 0
-                   [] op = "<=" -> c <= 0 [] op = ">" -> c > 0 [] op = ">=" -> c >= 0
-
-Val(op, a, b) ==
-  IF op \in BoolOps
-  THEN IF a.t = "bool" /\ b.t = "bool"
-       THEN VBool(IF op = "and" THEN a.b /\ b.b ELSE a.b \/ b.b) ELSE Skip
-  ELSE IF op \in CmpOps
-  THEN IF IsIntLike(a) /\ IsIntLike(b) THEN VBool(CmpRes(op, Cmp(AsInt(a), AsInt(b))))
-       ELSE IF (a.t = "float" \/ SmallInt(AsInt(a))) /\ (b.t = "float" \/ SmallInt(AsInt(b)))
-            THEN VBool(CmpRes(op, FCmp(AsFloat(a), AsFloat(b)))) ELSE Skip
-  ELSE IF IsIntLike(a) /\ IsIntLike(b)
-  THEN LET x == AsInt(a) y == AsInt(b) IN
-       CASE op = "+" -> VInt(Add(x, y))
-         [] op = "-" -> VInt(Sub(x, y))
-         [] op = "*" -> VInt(Mul(x, y))
-         [] op = "//" -> IF y.mag = <<>> THEN Zde ELSE IF SmallInt(y) THEN VInt(FloorDivSmall(x, ToSmall(y))) ELSE Skip
-         [] op = "%" -> IF y.mag = <<>> THEN Zde ELSE IF SmallInt(y) THEN VInt(ModSmall(x, ToSmall(y))) ELSE Skip
-         [] op = "**" -> IF SmallInt(y) /\ ~y.neg /\ ToSmall(y) <= 7 THEN VInt(PowSmall(x, ToSmall(y))) ELSE Skip
-         [] op = "/" -> IF SmallInt(x) /\ SmallInt(y) THEN TrueDiv(ToSmall(x), ToSmall(y)) ELSE Skip
-  ELSE \* at least one float
-       IF (a.t = "float" \/ SmallInt(AsInt(a))) /\ (b.t = "float" \/ SmallInt(AsInt(b)))
-       THEN LET x == AsFloat(a) y == AsFloat(b) IN
-            CASE op = "+" -> FAdd(x, y)
-              [] op = "-" -> FAdd(x, FNeg(y))
-              [] op = "*" -> IF (x.m = 0 \/ y.m = 0) /\ (x.m < 0 \/ y.m < 0) THEN Skip ELSE FMul(x, y)   \* -0.0
-              [] OTHER -> Skip
-       ELSE Skip
-
-\* ---- printed forms (Python str())
-RECURSIVE PadLeft(_, _)
-PadLeft(s, n) == IF Len(s) >= n THEN s ELSE PadLeft("0" \o s, n)   \* Len on strings is supported by TLC
-Abs(n) == IF n < 0 THEN -n ELSE n
-ReprF(x) == IF x.e = 0 THEN ToString(x.m) \o ".0"
-            ELSE LET digits == ToString(Abs(x.m) * Pow5(x.e))
-                     padded == PadLeft(digits, x.e + 1)
-                     ip == SubSeq(padded, 1, Len(padded) - x.e)
-                     fp == SubSeq(padded, Len(padded) - x.e + 1, Len(padded))
-                 IN (IF x.m < 0 THEN "-" ELSE "") \o ip \o "." \o fp
-Show(x) == CASE x.t = "int" -> ToDec(x.v)
-             [] x.t = "bool" -> IF x.b THEN "True" ELSE "False"
-             [] x.t = "float" -> ReprF(x)
-             [] x.t = "zde" -> "ZeroDivisionError"
-             [] x.t = "skip" -> "SKIP"
-\* source text of a literal operand (parenthesised when negative)
-Lit(x) == LET s == Show(x) IN IF (x.t = "int" /\ x.v.neg) \/ (x.t = "float" /\ x.m < 0) THEN "(" \o s \o ")" ELSE s
 
 Operands == {VInt(IntOf(s)) : s \in IntLits}
               \cup {NormF(f[1], f[2]) : f \in FloatLits}
